@@ -258,6 +258,9 @@ func wellFormedTar(b []byte) bool {
 	}
 }
 
+var kept string // id of the tree whose complete entry is in the cache (retrieve cases)
+var faultlessMiss int
+var faultlessMissExample string
 var cmdStreamWellFormedAfterCancel, storeFaultCommitted, storeFaultNothing, retrieveFaultMiss, retrieveFaultCompleteHit int
 
 // runCase executes one case; class "" = holds.
@@ -267,12 +270,17 @@ func runCase(c Case) (class, detail string, got *tree.Node) {
 	kf := filepath.Join(cmdDir, fmt.Sprintf("%x", key))
 	storeCmd := "cat > " + sq(kf+".tmp") + " && mv " + sq(kf+".tmp") + " " + sq(kf)
 	retrieveCmd := "cat " + sq(kf)
-	// fresh cache contents
-	srv.mu.Lock()
-	srv.entries, srv.putCut, srv.getMode = map[string][]byte{}, -1, ""
-	srv.mu.Unlock()
-	emptyDir(cmdDir)
-	setSource(c.Tree)
+	// fresh cache contents (the complete entry of the previous retrieve case of the same tree is kept)
+	id := c.Cache + "|" + c.Decl + "|" + c.Tree.Canon()
+	reuse := c.Phase == "retrieve" && kept == id
+	if !reuse {
+		kept = ""
+		srv.mu.Lock()
+		srv.entries, srv.putCut, srv.getMode = map[string][]byte{}, -1, ""
+		srv.mu.Unlock()
+		emptyDir(cmdDir)
+		setSource(c.Tree)
+	}
 	pfx := c.Cache + "cache:" + c.Phase + "-fault:"
 	if c.Phase == "store" {
 		p := filepath.Join(outDir, c.Pos)
@@ -300,8 +308,12 @@ func runCase(c Case) (class, detail string, got *tree.Node) {
 		if c.Cache == "cmd" {
 			procs += 3
 			if c.Fault != "none" && c.Fault != "command-fails" {
-				if b, err := os.ReadFile(kf + ".tmp"); err == nil && wellFormedTar(b) {
+				b, err := os.ReadFile(kf + ".tmp")
+				if err == nil && wellFormedTar(b) {
 					cmdStreamWellFormedAfterCancel++
+				}
+				if os.Getenv("C13_DEBUG") != "" {
+					fmt.Fprintf(os.Stderr, "DEBUG %s %s: tmp file %d bytes err=%v wellformed=%v committed=%v\n", c.Fault, c.Pos, len(b), err, wellFormedTar(b), stored(c) != nil)
 				}
 			}
 		}
@@ -324,7 +336,10 @@ func runCase(c Case) (class, detail string, got *tree.Node) {
 		}
 		if !hit {
 			if c.Fault == "none" {
-				return pfx + "miss-after-faultless-store", "a Store without any fault followed by a Retrieve missed", got
+				faultlessMiss++ // not demanded by the statement (a miss is always safe); reported in the evidence
+				if faultlessMissExample == "" {
+					faultlessMissExample = fmt.Sprintf("%s cache, outputs %v of %s", c.Cache, outs, want.Canon())
+				}
 			}
 			return "", "", got
 		}
@@ -340,7 +355,13 @@ func runCase(c Case) (class, detail string, got *tree.Node) {
 		return "", "", got
 	}
 	// retrieve faults: a complete entry first
-	theCache(c, storeCmd, retrieveCmd).Store(target, key, outs)
+	if !reuse {
+		theCache(c, storeCmd, retrieveCmd).Store(target, key, outs)
+		if c.Cache == "cmd" {
+			procs += 3
+		}
+		kept = id
+	}
 	entry := stored(c)
 	if entry == nil {
 		logging.SetLevel(logging.DEBUG, "")
@@ -367,7 +388,7 @@ func runCase(c Case) (class, detail string, got *tree.Node) {
 		lib.Fatal("the retrieve did not reach the server (%d requests)", srv.gets-before)
 	}
 	if c.Cache == "cmd" {
-		procs += 5
+		procs += 2
 	}
 	got, err := tree.Read(outDir)
 	must(err)
@@ -443,10 +464,8 @@ func main() {
 	}
 
 	sp := tree.Space{Names: []string{"a", "b"}, Contents: []string{"", "x"}, Targets: []string{"a"}, MaxDepth: 2, MaxEntries: 3}
-	cmdEntries, cmdRetrieveTrees := 2, 3
 	if !r.Quick() {
 		sp = tree.Space{Names: []string{"a", "b", "c"}, Contents: []string{"", "x"}, Targets: []string{"a", "../a"}, MaxDepth: 3, MaxEntries: 3}
-		cmdEntries, cmdRetrieveTrees = 3, 40
 	}
 	var trees []*tree.Node
 	for _, t := range sp.Dirs() {
@@ -458,6 +477,7 @@ func main() {
 	trees = append(trees, big)
 
 	var evals, nontrivial int
+	byFault := map[string]int{}
 	var samples lib.Samples
 	exhaustive := true
 	run := func(c Case) {
@@ -478,6 +498,10 @@ func main() {
 		}
 		if class == "" {
 			return
+		}
+		byFault[c.Cache+":"+c.Phase+":"+c.Fault+" -> "+class]++
+		if os.Getenv("C13_DEBUG") == c.Fault {
+			fmt.Fprintf(os.Stderr, "DEBUG %s %s %s pos=%s tree=%s got=%s\n", c.Cache, c.Fault, c.Decl, c.Pos, c.Tree.Canon(), got.Canon())
 		}
 		if !r.HasViolation(class) {
 			c2, _, _ := runCase(c)
@@ -516,9 +540,11 @@ func main() {
 		for _, decl := range decls(t) {
 			storeFaults("http", t, decl)
 		}
-		// transport cut of the PUT every 16 bytes
-		for off := 0; off < 400; off += 16 {
-			run(Case{Cache: "http", Phase: "store", Tree: t, Decl: "top", Fault: "put-cut", Off: off})
+		if t.Entries() <= 2 || t == big {
+			// transport cut of the PUT every 64 bytes (the client buffers the body, so this only exercises the server model)
+			for off := 0; off < 400; off += 64 {
+				run(Case{Cache: "http", Phase: "store", Tree: t, Decl: "top", Fault: "put-cut", Off: off})
+			}
 		}
 	}
 	for ti, t := range trees {
@@ -539,28 +565,42 @@ func main() {
 		}
 	}
 	httpEvals := evals
-	// command cache (each case costs 5 processes)
-	for _, t := range trees {
-		if t.Entries() > cmdEntries && t != big {
-			continue
+	// command cache (a store case costs 5 processes, a retrieve cut 2): a fixed list of trees in the quick tier
+	f, d, l := tree.File, tree.Dir, tree.Link
+	type m = map[string]*tree.Node
+	cmdTrees := []*tree.Node{
+		d(m{"a": f("x")}),
+		d(m{"a": f("x"), "b": f("")}),
+		d(m{"a": d(m{"a": f("x")})}),
+		d(m{"a": d(m{"a": f("x"), "b": f("x")})}),
+		d(m{"a": l("a"), "b": f("x")}),
+	}
+	cutTrees := []*tree.Node{cmdTrees[1], cmdTrees[3]}
+	if !r.Quick() {
+		for _, t := range trees {
+			if t.Entries() <= 2 {
+				cmdTrees = append(cmdTrees, t)
+			}
 		}
+		cmdTrees = append(cmdTrees, big)
+		cutTrees = append(cutTrees, cmdTrees[0], cmdTrees[2], cmdTrees[4], big)
+		for i, t := range trees {
+			if t.Entries() == 3 && i%9 == 0 {
+				cutTrees = append(cutTrees, t)
+			}
+		}
+	}
+	for i, t := range cmdTrees {
 		for _, decl := range decls(t) {
 			storeFaults("cmd", t, decl)
 		}
-		for _, off := range []int{0, 700} {
-			run(Case{Cache: "cmd", Phase: "store", Tree: t, Decl: "top", Fault: "command-fails", Off: off})
+		if i == 1 || t == big {
+			for _, off := range []int{0, 700} {
+				run(Case{Cache: "cmd", Phase: "store", Tree: t, Decl: "top", Fault: "command-fails", Off: off})
+			}
 		}
 	}
-	n := 0
-	for _, t := range trees {
-		if t != big {
-			if t.Entries() < 2 && n > 0 {
-				continue // one single-entry tree is enough
-			}
-			if n++; n > cmdRetrieveTrees {
-				continue
-			}
-		}
+	for _, t := range cutTrees {
 		for blk := 0; blk < 400; blk++ {
 			stop := false
 			for _, d := range []int{-1, 0, 1} {
@@ -590,8 +630,10 @@ func main() {
 		Extra: map[string]any{"trees": len(trees), "http_evaluations": httpEvals, "cmd_evaluations": evals - httpEvals, "processes_spawned_approx": procs,
 			"faulted_stores_that_committed_an_entry": storeFaultCommitted, "faulted_or_faultless_stores_that_committed_nothing": storeFaultNothing,
 			"faulted_retrieves_reported_as_miss": retrieveFaultMiss, "cut_retrieves_that_still_restored_everything": retrieveFaultCompleteHit,
-			"cmd_faulted_stores_whose_stdin_stream_was_a_complete_archive": cmdStreamWellFormedAfterCancel,
-			"space": fmt.Sprintf("names %q contents %q symlink targets %q depth<=%d entries<=%d + one tree with a 70 KB file; declarations top|leaf; command cache: store faults on trees of <=%d entries, retrieve cuts on %d trees",
-				sp.Names, sp.Contents, sp.Targets, sp.MaxDepth, sp.MaxEntries, cmdEntries, cmdRetrieveTrees)},
+			"violations_by_fault_kind": byFault,
+			"timing_dependent_cmd_faulted_stores_whose_stdin_stream_was_a_complete_archive": cmdStreamWellFormedAfterCancel,
+			"faultless_round_trips_that_missed": faultlessMiss, "faultless_miss_example": faultlessMissExample,
+			"space": fmt.Sprintf("names %q contents %q symlink targets %q depth<=%d entries<=%d + one tree with a 70 KB file; declarations top|leaf; command cache: store faults on %d trees, retrieve cuts on %d trees",
+				sp.Names, sp.Contents, sp.Targets, sp.MaxDepth, sp.MaxEntries, len(cmdTrees), len(cutTrees))},
 	})
 }
